@@ -85,6 +85,7 @@ func knownDurPair(c *Ctx, secs int64, nanos int32) {
 	x := &durationpb.Duration{Seconds: secs, Nanos: nanos}
 	got := int64(x.AsDuration())
 	c.Case("known", "asdur", ins, []string{HexZ(got)})
+	c.Case("known", "go_asdur", append([]string{"0"}, ins...), []string{HexZ(got)}) // Tier T: translated source
 	want := knownClamp(knownExact(secs, nanos))
 	if got != want {
 		if knownF4(secs, nanos) {
@@ -105,6 +106,7 @@ func knownDurPair(c *Ctx, secs int64, nanos int32) {
 	err := x.CheckValid()
 	cls := knownErrClassDur(err)
 	c.Case("known", "durcheck", ins, []string{cls})
+	c.Case("known", "go_durcheck", append([]string{"0"}, ins...), []string{cls, Tok(x.IsValid())})
 	if x.IsValid() != (err == nil) {
 		c.PropFail("C43", "Duration IsValid != (CheckValid == nil)", ins...)
 	}
@@ -121,6 +123,7 @@ func knownDurPair(c *Ctx, secs int64, nanos int32) {
 func knownDurNew(c *Ctx, d int64) {
 	x := durationpb.New(time.Duration(d))
 	c.Case("known", "durnew", []string{HexZ(d)}, []string{HexZ(x.Seconds), HexZ(int64(x.Nanos))})
+	c.Case("known", "go_durnew", []string{HexZ(d)}, []string{HexZ(x.Seconds), HexZ(int64(x.Nanos))})
 	if int64(x.AsDuration()) != d {
 		c.PropFail("C43", "durationpb.New(d).AsDuration() != d", HexZ(d))
 	}
@@ -141,6 +144,7 @@ func knownTsNew(c *Ctx, unix int64, nsec int64) {
 	t := time.Unix(unix, nsec).In(knownLocs[c.Intn(len(knownLocs))])
 	x := timestamppb.New(t)
 	c.Case("known", "tsnew", []string{HexZ(unix), HexZ(nsec)}, []string{HexZ(x.Seconds), HexZ(int64(x.Nanos))})
+	c.Case("known", "go_tsnew", []string{HexZ(t.Unix()), HexZ(int64(t.Nanosecond()))}, []string{HexZ(x.Seconds), HexZ(int64(x.Nanos))})
 	back := x.AsTime()
 	if !back.Equal(t) || back.Location() != time.UTC || back.Unix() != unix || int64(back.Nanosecond()) != nsec {
 		c.PropFail("C43", "timestamppb.New(t).AsTime() != t", HexZ(unix), HexZ(nsec))
@@ -171,6 +175,7 @@ func knownTsPair(c *Ctx, secs int64, nanos int32) {
 	err := x.CheckValid()
 	cls := knownErrClassTs(err)
 	c.Case("known", "tscheck", ins, []string{cls})
+	c.Case("known", "go_tscheck", append([]string{"0"}, ins...), []string{cls, Tok(x.IsValid())})
 	if x.IsValid() != (err == nil) {
 		c.PropFail("C43", "Timestamp IsValid != (CheckValid == nil)", ins...)
 	}
@@ -290,6 +295,9 @@ func knownTimeHelpers(c *Ctx, budget int) {
 	if nd.IsValid() || knownErrClassDur(nd.CheckValid()) != "1" || nt.IsValid() || knownErrClassTs(nt.CheckValid()) != "1" {
 		c.PropFail("C43", "nil Duration/Timestamp not reported invalid (invalidNil)")
 	}
+	c.Case("known", "go_asdur", []string{"1", "0", "0"}, []string{HexZ(int64(nd.AsDuration()))})
+	c.Case("known", "go_durcheck", []string{"1", "0", "0"}, []string{knownErrClassDur(nd.CheckValid()), Tok(nd.IsValid())})
+	c.Case("known", "go_tscheck", []string{"1", "0", "0"}, []string{knownErrClassTs(nt.CheckValid()), Tok(nt.IsValid())})
 	if nd.AsDuration() != 0 || !nt.AsTime().Equal(time.Unix(0, 0)) {
 		c.PropFail("C43", "nil Duration/Timestamp do not convert to zero")
 	}
